@@ -48,6 +48,33 @@ pub fn history_replays(depth: Depth, mut f: impl FnMut(AbsReplay, usize)) {
 			}
 		}
 	}
+	if quick {
+		// every one of the 81 port / Ice-Climbers configurations, in each framing regime
+		for v in [(0u8, 1u8), (2, 2), (3, 16)] {
+			let regime = spec::regime(v);
+			for ports in all_port_configs() {
+				let maxf = if ports.is_empty() && regime == 0 { 0 } else { 2 };
+				let sp = HistSpace { regime, ports: ports.clone(), max_frames: maxf, min_frames: maxf.min(1), budget: 1, free_presence: false, max_items: 1 };
+				for (h, dev) in histories(&sp) {
+					let a = AbsReplay { ver: (v.0, v.1, 0), ports: ports.clone(), teams: false, gecko: Gecko::None, frames: h, ends: 1, metadata: None, fill: Fill::B };
+					f(a, dev);
+				}
+			}
+		}
+	}
+	// frame ids at the extremes of i32 (only where a Frame Start carries the id)
+	for v in [(2u8, 2u8), (3, 0), (3, 16)] {
+		let ports = vec![pc(0, false), pc(2, true)];
+		for ids in [vec![i32::MAX - 1, i32::MAX, i32::MIN, i32::MIN + 1], vec![-124, -123, -1, 0, 1], vec![i32::MIN, i32::MIN, i32::MAX, i32::MAX], vec![0x7FFF, 0x8000, 0xFFFF, 0x10000, 0x00FF_FFFF, 0x0100_0000]] {
+			let mut a = base_replay(v, ports.clone(), ids.len());
+			for (fr, id) in a.frames.iter_mut().zip(&ids) {
+				fr.id = *id;
+			}
+			a.frames[1].present[1][1] = false;
+			a.fill = Fill::B;
+			f(a, 2);
+		}
+	}
 	// all presence patterns (no deviation bound on presence) for configurations with <= 4 characters
 	let reps = if quick { vec![(0, 1), (2, 0), (2, 2), (3, 0), (3, 16)] } else { spec::v_rep() };
 	for v in &reps {
@@ -110,7 +137,7 @@ pub fn long_replays(quick: bool) -> Vec<AbsReplay> {
 		}
 		out.push(a);
 	}
-	if !quick {
+	{
 		// more than 65,535 items in one game
 		let mut a = base_replay((3, 16), vec![pc(0, false), pc(1, false)], 110);
 		for f in a.frames.iter_mut() {
